@@ -40,6 +40,10 @@ pub struct SolveOut {
     pub c: f64,
     pub trace: Vec<IterRecord>,
     pub degree: usize,
+    /// (iteration, elapsed time compared with time_limit) at each termination check
+    pub checks: Vec<(u32, f64)>,
+    /// text delivered to the print buffer (verbose runs print to a buffer)
+    pub printed: String,
 }
 
 pub fn status_name(s: SolverStatus) -> &'static str {
@@ -90,16 +94,32 @@ pub fn collect(solver: &DefaultSolver<f64>, tr: Vec<IterRecord>) -> SolveOut {
         c: solver.data.equilibration.c,
         trace: tr,
         degree: solver.cones.degree(),
+        checks: vec![],
+        printed: String::new(),
     }
 }
 
 /// construct, solve, collect (with trace).  Panics propagate to the caller.
 pub fn run_solver(ps: &ProblemSpec, st: &SettingsSpec) -> SolveOut {
-    let mut solver = build_solver(ps, st);
+    let solver = build_solver(ps, st);
+    run_built(solver, st)
+}
+
+pub fn run_built(mut solver: DefaultSolver<f64>, st: &SettingsSpec) -> SolveOut {
+    use clarabel::io::ConfigurablePrintTarget;
+    if st.verbose {
+        solver.print_to_buffer();
+    }
     trace::start();
     solver.solve();
     let tr = trace::take();
-    collect(&solver, tr)
+    let checks = trace::take_checks();
+    let mut out = collect(&solver, tr);
+    out.checks = checks;
+    if st.verbose {
+        out.printed = solver.get_print_buffer().unwrap_or_default();
+    }
+    out
 }
 
 /// the infinity bound in force (module default unless a check changes it)
